@@ -30,10 +30,18 @@ PkSrcs == {"sig_signer",   \* in the signature: the public key of whoever signed
            "state_nokey"}  \* not in the signature, and the signer's account has no public key
 Muts == {"none", "chain", "msg", "fee", "memo", "entropy", "sig"}
 
-Cases == {[msg |-> m, ktype |-> k, who |-> w, pksrc |-> p, mut |-> u, feeD |-> f, balD |-> b, mult |-> x, replayed |-> r] :
+\* fx: the fee is the stake denomination only ("plain"), or carries an additional coin of another
+\*     denomination that the signer holds ("extra"), or consists ONLY of the other denomination ("foreign")
+\* rp: the transaction is new ("no"), or the tx index already holds it with a successful result
+\*     ("ok") or with a failed one ("failed": its handler failed after the fee had been charged)
+Cases == {[msg |-> m, ktype |-> k, who |-> w, pksrc |-> p, mut |-> u, feeD |-> f, balD |-> b, mult |-> x, rp |-> r, fx |-> y] :
             m \in MsgSel, k \in KeySel, w \in {"own", "other", "ms_missing", "ms_swapped", "ms_onebad", "ms_dup"},
-            p \in PkSrcs, u \in MutSel, f \in {-1, 0, 1}, b \in {-1, 0, 1}, x \in {1, 2}, r \in BOOLEAN}
-WellFormed(c) == c.who \in Whos(c.ktype)
+            p \in PkSrcs, u \in MutSel, f \in {-1, 0, 1}, b \in {-1, 0, 1}, x \in {1, 2}, r \in {"no", "ok", "failed"},
+            y \in {"plain", "extra", "foreign"}}
+WellFormed(c) == c.who \in Whos(c.ktype) /\ (c.fx = "foreign" => c.feeD = -1)
+Replayed(c) == c.rp # "no"
+\* does the fee cover the requirement in the stake denomination? (a foreign-only fee pays nothing of it)
+FeeCovers(c) == c.feeD >= 0 /\ c.fx # "foreign"
 
 \* the property's definition: the signature is by the declared signer's own key(s), every listed
 \* key in its own position, over exactly the content that was submitted
@@ -55,16 +63,16 @@ Verifies(c) ==
 Accepts(c) ==
   /\ PkUsed(c) # "none"                                              \* ErrEmptyPublicKey
   /\ ("NoSignerCheck" \in Dev \/ PkUsed(c) = "own")                  \* public key must be the declared signer's
-  /\ ~c.replayed                                                     \* ErrDuplicateTx
-  /\ (c.feeD >= 0 \/ ("MultisigFeeSkip" \in Dev /\ IsMulti(c.ktype)))   \* ErrInsufficientFee
+  /\ ~Replayed(c)                                                    \* ErrDuplicateTx
+  /\ (FeeCovers(c) \/ ("MultisigFeeSkip" \in Dev /\ IsMulti(c.ktype)))  \* ErrInsufficientFee
   /\ (IsMulti(c.ktype) => SubKeys(c.ktype) + 1 <= SigLimit)          \* ErrTooManySignatures (recSignDepth counts from 1)
   /\ Verifies(c)                                                     \* signature verification
   /\ c.balD >= 0                                                     \* DeductFees: ErrInsufficientBalance
 
 \* C03
 OnlySignerAuthorises(c) == Accepts(c) => Authorised(c)
-PaysRequiredFee(c)      == Accepts(c) => c.feeD >= 0
-NoReplay(c)             == Accepts(c) => ~c.replayed
+PaysRequiredFee(c)      == Accepts(c) => FeeCovers(c)
+NoReplay(c)             == Accepts(c) => ~Replayed(c)
 
 VARIABLE c
 Init == c \in {x \in Cases : WellFormed(x)}
